@@ -58,8 +58,15 @@ Qed.
 Lemma event_eqb_refl x : event_eqb x x = true.
 Proof. destruct x as [[[[t k] v] kr] r]. unfold event_eqb. rewrite !N.eqb_refl, !beqb_refl. reflexivity. Qed.
 
-(* outside the recorded deviation: no empty value written *)
-Definition c12_valid (c : c12_case) : Prop := Forall hist_ok (h_reqs c).
+(* outside the recorded deviation: no empty value written — or no TiKV configuration among the runs *)
+Definition c12_valid (c : c12_case) : Prop :=
+  Forall (hist_ok nonempty) (h_reqs c) \/ Forall (fun r => r_eng r <> ETiKV) (h_runs c).
+
+Lemma nonempty_ok v : v <> [] -> nonempty v. Proof. exact (fun H => H). Qed.
+Lemma anyvalue_ok v : v <> [] -> anyvalue v. Proof. exact (fun _ => I). Qed.
+
+Lemma hist_any qs : Forall (hist_ok anyvalue) qs.
+Proof. apply Forall_forall. intros q _. destruct q; exact I. Qed.
 
 Lemma stamped_of e : stamped_if_version (sim_of e).
 Proof.
@@ -71,22 +78,34 @@ Proof.
   - apply (stamped_wrapper badger ByVersion sim_badger). exact stamped_badger.
 Qed.
 
-Lemma plain_ok_of e : plain_ok (sim_of e).
+Lemma plain_ok_of e : plain_ok nonempty (sim_of e).
 Proof.
   destruct e; cbn [sim_of].
-  - exact plain_ok_memkv.
-  - exact plain_ok_badger.
+  - apply plain_ok_memkv.
+  - apply plain_ok_badger.
   - exact plain_ok_tikv.
-  - apply plain_ok_wrapper. exact plain_ok_memkv.
-  - apply plain_ok_wrapper. exact plain_ok_badger.
+  - apply plain_ok_wrapper. apply plain_ok_memkv.
+  - apply plain_ok_wrapper. apply plain_ok_badger.
 Qed.
 
-Lemma run_ok_transcript init qs r0 r : Forall hist_ok qs -> run_ok init qs r0 = true -> run_ok init qs r = true ->
+(* the engines that store empty values admit every value *)
+Lemma plain_any_of e : e <> ETiKV -> plain_ok anyvalue (sim_of e).
+Proof.
+  intros He. destruct e; cbn [sim_of]; try congruence.
+  - apply plain_ok_memkv.
+  - apply plain_ok_badger.
+  - apply plain_ok_wrapper. apply plain_ok_memkv.
+  - apply plain_ok_wrapper. apply plain_ok_badger.
+Qed.
+
+Lemma run_ok_transcript (VP : bytes -> Prop) (HVP : forall v, v <> [] -> VP v) init qs r0 r :
+  plain_ok VP (sim_of (r_eng r0)) -> plain_ok VP (sim_of (r_eng r)) ->
+  Forall (hist_ok VP) qs -> run_ok init qs r0 = true -> run_ok init qs r = true ->
   same_transcript r0 r = true.
 Proof.
-  intros Hok H0 H1. unfold run_ok in *.
-  rewrite (engine_independent _ _ (sim_of (r_eng r)) _ _ (sim_of (r_eng r0)) registry init qs
-             (plain_ok_of _) (stamped_of _) (plain_ok_of _) (stamped_of _) Hok) in H1.
+  intros Hp0 Hp Hok H0 H1. unfold run_ok in *.
+  rewrite (engine_independent VP HVP _ _ (sim_of (r_eng r)) _ _ (sim_of (r_eng r0)) registry init qs
+             Hp (stamped_of _) Hp0 (stamped_of _) Hok) in H1.
   destruct (run_history (adapter_of (r_eng r0)) registry init qs) as [[final rs] evs].
   apply andb_true_iff in H0 as [H0 _]. apply andb_true_iff in H0 as [Ha0 Hb0].
   apply andb_true_iff in H1 as [H1 _]. apply andb_true_iff in H1 as [Ha1 Hb1].
@@ -100,8 +119,13 @@ Proof.
   unfold c12_valid, c12_check, c12_oracle. intros Hok Hc. destruct (h_runs c) as [|r0 rest]; [reflexivity|].
   cbn [forallb] in Hc. apply andb_true_iff in Hc as [H0 Hr].
   assert (H : forallb (same_transcript r0) rest = true).
-  { apply forallb_forall. intros r Hin. rewrite forallb_forall in Hr.
-    apply (run_ok_transcript (h_init c) (h_reqs c)); auto. }
+  { apply forallb_forall. intros r Hin. rewrite forallb_forall in Hr. destruct Hok as [Hok|Hnt].
+    - apply (run_ok_transcript nonempty nonempty_ok (h_init c) (h_reqs c)); auto; apply plain_ok_of.
+    - rewrite Forall_forall in Hnt.
+      apply (run_ok_transcript anyvalue anyvalue_ok (h_init c) (h_reqs c)); auto.
+      + apply plain_any_of. apply Hnt. left; reflexivity.
+      + apply plain_any_of. apply Hnt. right; exact Hin.
+      + apply Forall_forall. intros q _. destruct q; exact I. }
   rewrite H. reflexivity.
 Qed.
 
@@ -109,8 +133,9 @@ Qed.
 Definition key_a : bytes := registry ++ [47; 97].
 Definition f1_history : list req := [QCreate key_a []; QGet key_a 0].
 
-Lemma empty_value_memkv_badger : snd (fst (run_history memkv registry 1000 f1_history)) <> snd (fst (run_history badger registry 1000 f1_history)).
-Proof. vm_compute. discriminate. Qed.
+(* memkv and Badger agree on it since Get returns the key-value whatever the value (repair of C16-F8) *)
+Lemma empty_value_memkv_badger : run_history memkv registry 1000 f1_history = run_history badger registry 1000 f1_history.
+Proof. vm_compute. reflexivity. Qed.
 
 Lemma empty_value_memkv_tikv : snd (fst (run_history memkv registry 1000 f1_history)) <> snd (fst (run_history tikv registry 1000 f1_history)).
 Proof. vm_compute. discriminate. Qed.
